@@ -125,8 +125,53 @@ def k_timezone_real(args):
 # K2: the skip rule - under the statement's hypothesis the incremental result equals the
 # full one; a size change re-hashes regardless of mtime
 
+class HalfSec:
+    """a time stamp with a .0 or .5 fraction, kept as an integer number of half seconds
+    (exact and solver-friendly stand-in for the float st_mtime): compares with whole
+    seconds, int() truncates, float() converts"""
+
+    def __init__(self, v2):
+        self.v2 = v2
+
+    @staticmethod
+    def _v2(o):
+        return o.v2 if isinstance(o, HalfSec) else 2 * o
+
+    def __le__(self, o):
+        return self.v2 <= self._v2(o)
+
+    def __lt__(self, o):
+        return self.v2 < self._v2(o)
+
+    def __ge__(self, o):
+        return self.v2 >= self._v2(o)
+
+    def __gt__(self, o):
+        return self.v2 > self._v2(o)
+
+    def __eq__(self, o):
+        return self.v2 == self._v2(o)
+
+    def __ne__(self, o):
+        return self.v2 != self._v2(o)
+
+    __hash__ = None
+
+    def __int__(self):
+        return self.v2 // 2
+
+    __trunc__ = __floor__ = __int__
+
+    def __float__(self):
+        return self.v2 / 2
+
+
 def k_skip_rule(st_size: int, mtime: int, last_mtime: int, f_dig: int, e_size: int,
-                e_dig: int, weird_fs: bool):
+                e_dig: int, weird_fs: bool, half: bool = False):
+    # st_mtime has sub-second resolution, the TIMESTAMP whole seconds
+    if half:
+        mtime = HalfSec(2 * mtime + 1)
+
     def once(lm):
         e = new_manifest_entry('DATA', 'f', e_size, {'MD5': e_dig})
         f = ve.OneFile('regular', st_size=0 if weird_fs else st_size, mtime=mtime,
@@ -145,16 +190,18 @@ def k_skip_rule(st_size: int, mtime: int, last_mtime: int, f_dig: int, e_size: i
 
 
 def k_skip_pre(st_size: int, mtime: int, last_mtime: int, f_dig: int, e_size: int,
-               e_dig: int, weird_fs: bool):
+               e_dig: int, weird_fs: bool, half: bool = False):
     # hypothesis of the statement: a file whose content differs from what the Manifest
     # records has been modified after the previous TIMESTAMP
     changed = (st_size != e_size) or (f_dig != e_dig)
+    if half:
+        mtime = HalfSec(2 * mtime + 1)
     return (st_size >= 0 and e_size >= 0 and (st_size >= 1 or f_dig == 0)
             and (not changed or mtime > last_mtime))
 
 
 def k_size_change_pre(st_size: int, mtime: int, last_mtime: int, f_dig: int, e_size: int,
-                      e_dig: int, weird_fs: bool):
+                      e_dig: int, weird_fs: bool, half: bool = False):
     # no hypothesis about mtimes here: the size differs from the recorded one
     return st_size >= 0 and e_size >= 0 and st_size != e_size and (st_size >= 1 or f_dig == 0)
 
@@ -239,19 +286,22 @@ def conditions(tier):
                  bounds='offset any whole second in [-14h, +14h]; 3 TIMESTAMP values')
         c.replay_real = (lambda a, _t=tsi: k_timezone_real({**a, 'tsi': _t}))
         cs.append(c)
-    for w in (False, True):
-        cs.append(Cond(f'skip_rule_w{int(w)}', specialise(k_skip_rule, weird_fs=w),
-                       specialise(k_skip_pre, weird_fs=w), timeout=300, group='skip',
+    for w, h in ((False, False), (True, False), (False, True)):
+        cs.append(Cond(f'skip_rule_w{int(w)}' + ('_subsecond' if h else ''),
+                       specialise(k_skip_rule, weird_fs=w, half=h),
+                       specialise(k_skip_pre, weird_fs=w, half=h), timeout=300, group='skip',
                        descr='real update_entry_for_path with and without last_mtime on the '
                              'same symbolic file under the hypothesis "changed content => '
                              'mtime > last_mtime": identical resulting entry and change '
                              'flag; a size change is re-hashed regardless of mtime',
                        bounds='sizes, mtimes, last_mtime any int; digests any int token (only '
                               'equality matters); '
-                              + ('st_size reported as 0' if w else 'st_size = true size')))
+                              + ('st_size reported as 0' if w else 'st_size = true size')
+                              + ('; mtime = whole seconds + 0.5' if h else '; whole-second mtime')))
     for w in (False, True):
-        cs.append(Cond(f'size_change_w{int(w)}', specialise(k_skip_rule, weird_fs=w),
-                       specialise(k_size_change_pre, weird_fs=w), timeout=300, group='skip',
+        cs.append(Cond(f'size_change_w{int(w)}', specialise(k_skip_rule, weird_fs=w, half=False),
+                       specialise(k_size_change_pre, weird_fs=w, half=False), timeout=300,
+                       group='skip',
                        descr='a file whose size differs from the recorded size is re-hashed '
                              'and refreshed whatever its mtime (older, equal, newer than '
                              'last_mtime)', bounds='any ints; no mtime hypothesis'))
